@@ -530,6 +530,9 @@ def medianTime (ts : List Int) : Int :=
   let w := ts.take 11
   (w.foldr insertSorted []).getD (w.length / 2) 0
 
+/-- `ShouldHaveSerializedBlockHeight` (header version as int32) -/
+def shouldHaveSerializedBlockHeight (version : Int) : Bool := version ≥ 2
+
 /-- `LockTimeToSequence` (uint32 arithmetic) -/
 def lockTimeToSequence (isSeconds : Bool) (locktime : Nat) : Nat :=
   if !isSeconds then locktime % 2^32 else (2^22 ||| (locktime % 2^32 / 2^9)) % 2^32
